@@ -726,6 +726,10 @@ class PrefixedSubAppResource(PrefixResource):
     def _add_prefix_to_resources(self, prefix: str) -> None:
         router = self._app.router
         for resource in router.resources():
+            if isinstance(resource, MatchedSubAppResource):
+                # Matched by its rule and not through the index
+                resource.add_prefix(prefix)
+                continue
             # Since the canonical path of a resource is about
             # to change, we need to unindex it and then reindex
             router.unindex_resource(resource)
